@@ -23,7 +23,9 @@ func NewUniformSampler(prng sampling.PRNG, r Ring) (s UniformSampler) {
 	return s
 }
 
-// AtLevel returns a shallow copy of the target sampler that operates at the specified levels.
+// AtLevel returns an instance of the target sampler that operates at the specified levels.
+// The returned sampler shares the PRNG and the random buffers of the receiver (it continues
+// the receiver's stream) and cannot be used concurrently to the receiver.
 func (s UniformSampler) AtLevel(levelQ, levelP int) UniformSampler {
 
 	var samplerQ, samplerP *ring.UniformSampler
